@@ -1615,7 +1615,12 @@ def remove_redundant_transpose_pairs_ir(graph: ir.Graph) -> None:
                 if isinstance(t_out, ir.Value) and isinstance(t_src, ir.Value):
                     trans_in_map[t_out] = t_src
 
-            for node in elem_nodes:
+            # Walk the DAG in graph (topological) order: refreshing a consumer
+            # before its producer would copy a stale, still-transposed shape, and
+            # iterating the set directly makes that depend on object hashes.
+            for node in nodes:
+                if node not in elem_nodes:
+                    continue
                 ins = _node_inputs(node)
                 for idx, iv in enumerate(ins):
                     if iv in trans_in_map:
